@@ -161,6 +161,11 @@ type minimiser struct {
 
 var sampledForms sync.Map // one evidence sample per accepted syntactic form
 
+func sampled(f string) bool {
+	_, seen := sampledForms.LoadOrStore(f, true)
+	return seen
+}
+
 var rtMin = &minimiser{best: map[string]pending{}}
 
 func (m *minimiser) offer(key, what string, w any, idx, size int, tie string) {
@@ -198,7 +203,7 @@ func checkString(r *lib.Run, idx int, s string, counts *[2]int64) {
 		counts[0]++
 		r.Case("rt|"+s+"|"+ctx.Cur+"|"+ctx.Subrepo, true)
 		f := form(s)
-		if _, seen := sampledForms.LoadOrStore(f, true); !seen && len(s) >= 4 {
+		if len(s) >= 4 && !sampled(f) {
 			r.Sample(map[string]string{"form": f, "input": s, "current_package": ctx.Cur, "parsed": show(l), "printed": l.String()})
 		}
 		r.ObsDistinct("accepted_forms", f)
